@@ -391,6 +391,7 @@ func (tn *Town) install() {
 			d["generator"] = Doc{"type": "Application", "name": "gen " + hb()}
 			d["location"] = Doc{"type": "Place", "name": "place " + hb()}
 			d["tag"] = []any{Doc{"type": "Hashtag", "name": "#tag" + hb(), "href": "https://media.example/t/" + hb()}, Doc{"type": "Emoji", "name": ":e" + hb() + ":", "icon": Doc{"type": "Image", "url": "https://media.example/e.png"}}}
+			gone := true
 			switch t.Draw(4) {
 			case 0:
 				delete(d, "content")
@@ -399,8 +400,11 @@ func (tn *Town) install() {
 			case 2:
 				delete(d, "content")
 				delete(d, "name")
+			default:
+				gone = false
 			}
-			if t.Chance(1, 2) {
+			if gone && t.Chance(1, 2) {
+				// (only when the body is gone: the links the generator knows of are those of the HTML body)
 				d["mediaType"] = []string{"text/plain", "text/gemini", "text/markdown", "text/html"}[t.Draw(4)]
 			}
 			f.r.S.Probe("town_hostile_strings_under_unread_vocabulary")
